@@ -196,7 +196,20 @@ def u3_raw_element_ops(prog):
                     if root[0] == 'elemf' and (e['k'], 'col') not in seen:
                         seen.add((e['k'], 'col'))
                         r.viol('U3', key + '/raw-element-op/' + e['k'], fn.loc(e['ln']), 'raw %s directly on a column buffer (bypassing the rebuilt Vec)' % e['k'], tag=fn.name)
-                if e['k'] == 'forget' and e['value'][0] in ('vec', 'md', 'fresh') and ('forget', 0) not in seen:
+                fv = e.get('value') if e['k'] == 'forget' else None
+                while fv is not None and fv[0] == 'md':
+                    fv = fv[1]
+                escaped_before = False
+                if fv is not None and fv[0] == 'fresh':
+                    # a fresh Vec not yet published: forgetting it is only a problem if its buffer was already stored
+                    for w in p.events:
+                        if w is e:
+                            break
+                        vals = [w['value']] if w['k'] == 'slot_write' else (w.get('args', []) if w['k'] == 'colvec_method' else [])
+                        for val in vals:
+                            if val and val[0] == 'tuple' and any(x[0] in ('vecptr', 'vecptr_u8') and x[1][:2] == fv[:2] for x in val[1]):
+                                escaped_before = True
+                if e['k'] == 'forget' and fv is not None and (fv[0] == 'vec' or (fv[0] == 'fresh' and escaped_before)) and ('forget', 0) not in seen:
                     seen.add(('forget', 0))
                     r.viol('U3', key + '/forget', fn.loc(e['ln']), 'mem::forget of a column Vec: until the forget is reached, unwinding drops the live column (use ManuallyDrop at creation)', tag=fn.name)
                 if e['k'] == 'vec_method' and e['vec'][0] == 'vec' and e.get('unwrapped') and fn.name not in FREE_ROLE and ('unwrapped', e['name']) not in seen:
